@@ -14,7 +14,9 @@ CLAIMS = {
  "C01": ("Theorems C01_total / C01_history: for every validated configuration, invariant state, batch, time value and random tape "
          "trigger_events returns Ok (no panic outcome, fuel never exhausted), re-establishes the invariant and enters transition at most "
          "(events+1)(machines+1)+2*machines times; proved for any clock whose Duration add cannot overflow (the virtual clock). "
-         "The std::time clock overflow (F6) is a recorded known finding exercised by a separate probe.", "DESIGN.md section 4, C01"),
+         "For the std::time clock: C01_std_only_duration / C01_std_history -- the call returns with the invariant, or panics with exactly the Duration overflow "
+         "(known finding F6: forall inputs outside that class the property holds; C01_std_overflow_exists is the witness); never an index, unwrap or fuel failure. "
+         "Proved by refinement to a totalised clock. A separate probe exercises F6 on the real code.", "DESIGN.md section 0 and 4, C01"),
  "C02": ("Theorem C02_budget: for every validated configuration, every history (earlier calls may be batches), every event, time value and random tape: "
          "a SendPadding returned by a single-event call for machine i implies, with the NormalSent/PaddingSent reports recounted from the history, "
          "own paddings < allowed_padding_packets, or machine fraction below max_padding_frac (if set) and global fraction below the framework limit (if set), "
@@ -106,8 +108,8 @@ CLAIMS = {
          "instant per UpdateTimer that set the timer, nothing else), C18_end (TimerEnd at the stored expiry, once), C18_only_by_firing (a cancelled or superseded expiry can no longer fire), "
          "C18_earliest, C18_not_past. Fix F7 (zero duration with no timer running) was found by this check.", "DESIGN.md section 0 and 4, C18"),
 
- "C19": ("PARTIAL (filters: theorem for max_trace_length = 0, the bounded case is checked as a prefix relation by the monitor; totality: for total clocks, std Duration overflow inside the "
-         "frameworks is finding F6 of C01). Theorems C19_projection (filtered run = filter of the unfiltered run, Panic/OutOfFuel included), C19_no_assertion (sim_advanced never returns Panic: "
+ "C19": ("PARTIAL (filters: theorem for max_trace_length = 0, the bounded case is checked as a prefix relation by the monitor). Totality: C19_no_assertion for total clocks, and C19_std_clock "
+         "for the real std clock (the only possible panic is the Duration overflow inside an embedded framework, finding F6 of C01). Theorems C19_projection (filtered run = filter of the unfiltered run, Panic/OutOfFuel included), C19_no_assertion (sim_advanced never returns Panic: "
          "no BUG assertion, unwrap or index failure, for every non-empty well-routed queue and machines with in-range targets), C19_time (the time-backwards check is dead code, trace sorted, "
          "final sort is the identity), C19_bounds (trace-length and iteration bounds, pick_next's recursion ends). Reproducibility: the model is a function of (machines, queue, args, tape); the "
          "monitor runs every case twice. Fix F9 (pps = 2^32) was found by this check.", "DESIGN.md section 0 and 4, C19"),
